@@ -6,6 +6,7 @@ import (
 	"fmt"
 	"io"
 	"runtime"
+	"sync/atomic"
 	"time"
 
 	ws "github.com/gorilla/websocket"
@@ -32,7 +33,7 @@ func init() {
 		},
 		Run:          runC06,
 		BeatTimeoutS: 60,
-		Required:     []string{"within_limit_read_in_full", "over_limit_refused", "close_1009_seen", "alloc_probes", "compressed_targets", "limit_changed_mid_connection", "reads_retried_after_limit_error"},
+		Required:     []string{"within_limit_read_in_full", "over_limit_refused", "close_1009_seen", "alloc_probes", "compressed_targets", "limit_changed_mid_connection", "reads_retried_after_limit_error", "crossing_frames_whose_payload_never_arrives"},
 		Assumptions: []string{
 			"the limit is counted in payload bytes on the wire (compressed size for compressed messages); the <=L delivered-bytes bound is judged for uncompressed messages only",
 			"allocation is measured with runtime.MemStats.TotalAlloc in a worker that runs one case at a time",
@@ -72,6 +73,8 @@ type c06Case struct {
 	// answers with its own close 1000. The peer sends no close in these streams: the handler must
 	// never run, and the 1009 close of a breach is the library's own business
 	CloseHandler int `json:"custom_close_handler,omitempty"`
+	// Withheld: the stream ends right after the header of the frame that crosses the limit
+	Withheld bool `json:"payload_of_crossing_frame_withheld,omitempty"`
 }
 
 func runC06(ctx *core.Ctx, out *core.Out) {
@@ -150,6 +153,7 @@ func runC06(ctx *core.Ctx, out *core.Out) {
 		cs.Hist = append(cs.Hist, h)
 	}
 	// target
+	targetFirst, targetEnd := -1, -1
 	var tdata []byte
 	huge := r.Chance(1, 6)
 	over := false
@@ -200,7 +204,9 @@ func runC06(ctx *core.Ctx, out *core.Out) {
 		tdata = r.Payload(gen.PText, int(cs.Target))
 		cs.Frags = splits(int(cs.Target))
 		over = cs.Target > cs.L
+		targetFirst = len(frames)
 		addMsg(tdata, cs.Frags)
+		targetEnd = len(frames)
 	}
 	// a follower message (within limit) and a marker
 	follow := r.Payload(gen.PFF, r.Range(0, int(cs.L)))
@@ -213,6 +219,24 @@ func runC06(ctx *core.Ctx, out *core.Out) {
 	}
 
 	stream := wire.Encode(frames)
+	if over && targetFirst >= 0 && r.Chance(1, 4) {
+		// the peer sends the header of the frame that crosses the limit and then nothing more
+		// (the transport ends there): the refusal must not wait for the payload
+		var sum int64
+		for i := targetFirst; i < targetEnd; i++ {
+			if frames[i].Op >= 8 {
+				continue
+			}
+			if sum+int64(len(frames[i].Payload)) > cs.L {
+				one := wire.Encode(frames[i : i+1])
+				stream = stream[:len(wire.Encode(frames[:i]))+len(one)-len(frames[i].Payload)]
+				cs.Withheld = true
+				out.Count("crossing_frames_whose_payload_never_arrives", 1)
+				break
+			}
+			sum += int64(len(frames[i].Payload))
+		}
+	}
 	nc := xport.New(xport.Rechunk(stream, cs.Chunk, r))
 	c := ws.VerifNewConn(nc, cs.Server, cs.RB, 256, nil, nil, false)
 	switch cs.LimitHist {
@@ -322,6 +346,17 @@ func runC06(ctx *core.Ctx, out *core.Out) {
 	if cs.LimitHist != 0 {
 		c.SetReadLimit(cs.L)
 	}
+	var late int32
+	if cs.Withheld {
+		// the peer stays connected and silent behind the crossing header: the refusal must come
+		// without the payload (a watchdog closes the transport if it does not)
+		nc.Block = true
+		timer := time.AfterFunc(20*time.Second, func() {
+			atomic.StoreInt32(&late, 1)
+			nc.Close()
+		})
+		defer timer.Stop()
+	}
 	_, rd, err := c.NextReader()
 	if err != nil {
 		terr = err
@@ -352,6 +387,10 @@ func runC06(ctx *core.Ctx, out *core.Out) {
 			}
 			out.Count("reads_retried_after_limit_error", 1)
 		}
+	}
+	if atomic.LoadInt32(&late) != 0 {
+		out.Violate("C06:refusal-waits-for-the-payload", "the header of the crossing frame arrived, the peer sent nothing more and stayed connected: 20 s later the read had not been refused", map[string]interface{}{"case": cs, "frames": framesDesc(frames, 24)})
+		return
 	}
 	if !over {
 		if terr != nil || !bytes.Equal(got, tdata) {
